@@ -2574,6 +2574,15 @@ def r10_hooks(ctx, ids=('R10.0', 'R10.1', 'R10.3'), only_hooks=None):
             if not all(f.cfg.dominates(f.nid(lo.iter), f.nid(h)) for h in calls):
                 why = 'the own hook is called before the ancestors\' hooks'
                 continue
+            # nothing leaves before the ancestors had their turn - a class without a hook of its own still inherits the seasoning
+            # of its bases (the only early exit there may be is "this class was visited already")
+            early = [x for x in f.returns() if not f.cfg.dominates(f.nid(lo.iter), f.nid(x))
+                     and not any(p_ and isinstance(g_, ast.Compare) and len(g_.ops) == 1 and isinstance(g_.ops[0], ast.In)
+                                 and norm(g_.left) == X and norm(g_.comparators[0]) in f.fi.params for g_, p_ in f.guards(x))]
+            if early:
+                why = 'the function returns before the loop over the bases (under %s): a class that has no hook of its own does not get ' \
+                      'its base classes\' hooks applied' % [t for t in f.guard_texts(early[0])][:2]
+                continue
             if name == '__savorize':
                 st = enclosing_stmt(c)
                 nodev = f.fi.params[1]
@@ -2591,9 +2600,20 @@ def r10_hooks(ctx, ids=('R10.0', 'R10.1', 'R10.3'), only_hooks=None):
             rets = f.returns()
             back = [n for n in f.walk() if isinstance(n, ast.Assign) and norm(n.targets[0]) == f.fi.params[1]
                     and isinstance(a0, ast.Name) and norm(n.value) == '%s.yaml_node' % a0.id]
-            ok = ('Node(%s)' % f.fi.params[1]) in wrap and bool(back) \
-                and all(isinstance(x.value, ast.Name) and x.value.id == f.fi.params[1] for x in rets) \
-                and all(f.cfg.dominates(f.nid(c), f.nid(b)) for b in back)
+            ok = ('Node(%s)' % f.fi.params[1]) in wrap and all(f.cfg.dominates(f.nid(c), f.nid(b)) for b in back)
+            after_hook = f.cfg.reachable(f.nid(c))
+            seen_after = False
+            for x in rets:
+                if f.nid(x) in after_hook:
+                    # what comes out of the hook: the wrapper's yaml_node, directly or through the node variable
+                    seen_after = True
+                    direct = isinstance(a0, ast.Name) and x.value is not None and norm(x.value) == '%s.yaml_node' % a0.id
+                    via = isinstance(x.value, ast.Name) and x.value.id == f.fi.params[1] and bool(back) \
+                        and f.cfg.must_pass(f.nid(c), f.nid(x), {f.nid(b) for b in back})
+                    ok = ok and (direct or via)
+                else:
+                    ok = ok and isinstance(x.value, ast.Name) and x.value.id == f.fi.params[1]
+            ok = ok and seen_after
             r2.check(ok, '__savorize wraps the node, calls the hook, and returns the (possibly replaced) yaml_node',
                      f.key('savorize-dataflow'), f.loc(c), 'the node a savorize hook produced is not what __savorize returns')
     r2.done()
